@@ -233,17 +233,19 @@ def build(configs=CONFIGS_QUICK, docs=None, release=False):
                     l for l in log.splitlines() if not l.startswith('cargo:'))[-1500:])
                 return gb
             text = open(tmp, encoding='utf-8').read()
-            dst = os.path.join(out, cfg + '.rs')
-            write_if_changed(dst, text)
-            # split builds write a directory of item files next to the main file
-            sub = os.path.join(tmp_dir, cfg)
-            if os.path.isdir(sub):
-                _sync_dir(sub, os.path.join(out, cfg))
-            gb.emitted[cfg] = dst
-            includes.append('include!(concat!(env!("PV_GEN_OUT"), "/%s.rs"));' % cfg)
-            full = text
-            if os.path.isdir(sub):
+            is_split = any(os.path.isdir(os.path.join(tmp_dir, f)) for f in os.listdir(tmp_dir))
+            if is_split:
+                # split builds write a directory tree of item files next to the main file
+                _sync_dir(tmp_dir, os.path.join(out, cfg + '_d'))
+                dst = os.path.join(out, cfg + '_d', cfg + '.rs')
+                includes.append('include!(concat!(env!("PV_GEN_OUT"), "/%s_d/%s.rs"));' % (cfg, cfg))
                 full = _inline_includes(text, tmp_dir)
+            else:
+                dst = os.path.join(out, cfg + '.rs')
+                write_if_changed(dst, text)
+                includes.append('include!(concat!(env!("PV_GEN_OUT"), "/%s.rs"));' % cfg)
+                full = text
+            gb.emitted[cfg] = dst
             types, variants, fields = scrape(full)
             names = {}
             for n in sch.names_in(cfg):
@@ -298,14 +300,13 @@ def _sync_dir(src, dst):
 
 
 def _inline_includes(text, base):
+    """textual expansion of include!("relative path") (paths are relative to the including file)"""
     def rep(m):
         p = os.path.join(base, m.group(1))
-        return open(p, encoding='utf-8').read() if os.path.exists(p) else ''
-    prev = None
-    while prev != text:
-        prev = text
-        text = re.sub(r'include!\(\s*"([^"]+)"\s*\);', rep, text)
-    return text
+        if not os.path.exists(p):
+            return ''
+        return _inline_includes(open(p, encoding='utf-8').read(), os.path.dirname(p))
+    return re.sub(r'include!\(\s*"([^"]+)"\s*\);', rep, text)
 
 
 def _errs(log):
